@@ -686,11 +686,30 @@ def rule_comment_not_sticky(ctx):
     rule_constant_nodes(ctx, "C09.j")
 
 
+def rule_empty_comment_recorded(ctx):
+    """C09.f (cont.): a declared comment is recorded even when it is the empty string — CREATE OR REPLACE TABLE … COMMENT = ''
+    must overwrite the replaced table's comment ("table comments as most recently declared")."""
+    prog = ctx.prog
+    n = 0
+    for tr in traces(prog, "CREATE OR REPLACE TABLE empty comment"):
+        if tr.path.outcome != "return":
+            continue
+        n += 1
+        rows = [s for s in tr.engine_sql if "_fs_tables_ext" in text_of(s)]
+        ctx.ob("C09.f", "CREATE OR REPLACE TABLE … COMMENT = '' writes the (empty) comment row", bool(rows), "fakesnow/transforms.py")
+        if not rows:
+            ctx.violation("C09.f", "transforms", "extract_comment_on_table", "empty comment not recorded", "fakesnow/transforms.py",
+                          "CREATE OR REPLACE TABLE … COMMENT = '' records nothing: the comment of the table it replaces stays in "
+                          "information_schema.tables although the most recent declaration is the empty comment")
+    ctx.floor("C09.f empty-comment traces", n, 1)
+
+
 from .c06 import rule_precision_pattern  # noqa: E402  (description of SELECT * must agree on precision and scale)
 
 RULES = [
     ("C09.g", rule_precision_pattern, ("quick", "thorough")),
     ("C09.f", rule_no_phantom_comment, ("quick", "thorough")),
+    ("C09.f2", rule_empty_comment_recorded, ("quick", "thorough")),
     ("C09.j", rule_comment_not_sticky, ("quick", "thorough")),
     ("C09.k", rule_views_session_independent, ("quick", "thorough")),
     ("C09.h", rule_type_names, ("quick", "thorough")),
